@@ -1,4 +1,5 @@
 import DroopProofs
+import DroopProofs.QpqTerm
 import Props.C02
 /-!
 # C01 — every count terminates with the seats filled and every candidate decided
@@ -18,7 +19,7 @@ candidates, ballots, seats; any ballot contents) and every lawful arithmetic:
 
 * `mpls_seats_filled_fixed` (Minneapolis, profiles without undeclared write-ins; with them: open finding F7).
 
-Not proved here: wigm with `defeat_batch=zero`, the Meek family and QPQ (their termination is decided by the
+QPQ: `qpq_terminates` at the end of this file.  Not proved here: the Meek family (its termination is decided by the
 correspondence runs and the `okC01` oracle on both records), and the case seats > candidates.
 -/
 namespace Droop.C01
@@ -149,5 +150,26 @@ theorem mpls_seats_filled_fixed (p : Nat) (s0 : St Int) (hinit : Init (fixedArit
   exact ⟨t, ht, mpls_result _ (fixed_lawful p) rfl s0 t h0 hnu ht⟩
 
 example : NoUnd C02.tiny := by intro c hc; simp [C02.tiny] at hc; rcases hc with rfl | rfl <;> rfl
+
+/-! ## QPQ: the count returns -/
+
+/-- **QPQ terminates**: for every case with distinct candidate ids and every precision / guard of the arithmetic the rule forces,
+    the count returns a state — the fuelled loop of the model (`n(n+2)+3` rounds for `n` candidates) never runs out.  The
+    measure: with `k` = hopeful + elected and `h` = hopeful, `T(k) + (k+1 if a restart is due, else h+1)` drops in every round
+    that continues (`DroopProofs/QpqTerm.lean`). -/
+theorem qpq_terminates (p g : Nat) (c : Case) (hr : c.rule = "qpq") (hnd : (c.cands.map (·.1)).Nodup) :
+    ∃ t, runRuleSt (guardedArith p g) c = some t := by
+  unfold runRuleSt
+  simp only [runRuleSt', hr]
+  apply qpqCount_terminates
+  unfold St.WF
+  rw [initState_cids]
+  exact hnd
+
+/-- ... and so the driver never prints `FUEL` for a QPQ count -/
+theorem qpq_never_fuel (p g : Nat) (c : Case) (hr : c.rule = "qpq") (hnd : (c.cands.map (·.1)).Nodup) :
+    ∃ t, finish (guardedArith p g) (runRuleSt (guardedArith p g) c) = finish (guardedArith p g) (some t) := by
+  obtain ⟨t, ht⟩ := qpq_terminates p g c hr hnd
+  exact ⟨t, by rw [ht]⟩
 
 end Droop.C01
